@@ -234,7 +234,13 @@ func (p *Packer) packWalkFn(root, src, dst string, tarW *tar.Writer, meta *Meta,
 		}
 
 		if r := matchIgnoreRules(subpath, ignoreRules); r.Excluded {
-			return nil
+			// Rules that name a directory are written with a trailing
+			// separator, so a directory that a later rule re-includes in that
+			// form ("!.terraform/modules/") keeps its own entry, and with it
+			// its mode and modification time.
+			if !info.IsDir() || matchIgnoreRules(subpath+string(os.PathSeparator), ignoreRules).Excluded {
+				return nil
+			}
 		}
 
 		// Catch directories so we don't end up with empty directories,
